@@ -512,6 +512,23 @@ def real_dataset_checks(tier):
             V('real:cf1d:record-dimension', 'editing non-geometry content does not change the cache key', 'dataset encoding unlimited_dims')
     else:
         notes.append('cf1d: bounds with a record dimension are not geometry here')
+    # the key of a SHOC dataset does not depend on what other datasets were opened with earlier in the process
+    from emsarray.conventions.arakawa_c import ArakawaCGridKind as K
+    from emsarray.conventions.shoc import ShocStandard
+    plain = _dataset('shoc_standard')
+    k_before = key_of(plain)
+    try:
+        oc = ShocStandard(builders.shoc_standard(3, 2), coordinate_names={K.left: ('y_back', 'x_back'), K.back: ('y_left', 'x_left'),
+                                                                       K.face: ('y_centre', 'x_centre'), K.node: ('y_grid', 'x_grid')})
+        oc.get_all_geometry_names()
+    except Exception as e:
+        notes.append(f'shoc_standard: custom coordinate names not applicable ({type(e).__name__})')
+    if key_of(_dataset('shoc_standard')) != k_before:
+        V('real:shoc_standard:after-custom-names', 'identical geometry values give the same key whatever was opened before', 'ShocStandard(other, coordinate_names=...) earlier')
+    edited = _dataset('shoc_standard')
+    edited['y_left'].values.reshape(-1)[0] += 0.125
+    if key_of(edited) == k_before:
+        V('real:shoc_standard:after-custom-names', 'a single edit of a geometry variable changes the cache key', 'y_left edited after another dataset was opened with custom names')
     # a dataset derived from one that has been hashed before is keyed by what it holds
     for conv in ('cf1d', 'cf2d', 'ugrid'):
         ds = _dataset(conv)
